@@ -81,6 +81,10 @@ def tasks(tier):
                    sleeper="call", sleeper_async=True, before_sleep="call", bs_async=bs,
                    max_unknown=None)
         out.append({"family": "await-points", "cfg": cfg, "entry": e, "bound": nf, "weight": 3})
+    for init, e in itertools.product(BRK, WITH_RETRY + NO_RETRY + ["PolicySet.call", "AsyncPolicySet.execute"]):
+        cfg = dict(M=2, alphabet=ENDINGS0 if e.split(".")[0].endswith("0") else ENDINGS,
+                   breaker=BRK[init], max_unknown=None, repoint=True)
+        out.append({"family": "endings-repointed", "cfg": cfg, "entry": e, "bound": 1})
     # async on the virtual event loop: Task.cancel() between any two loop iterations, with and
     # without attempt_timeout_s (wait_for), plus the sync attempt timeout through the owned executor
     for init, e, at in itertools.product(BRK, ["AsyncPolicy.call", "AsyncPolicy.execute",
